@@ -32,6 +32,13 @@ pub enum RadioError {
     RngUnsupported,
 }
 
+/// Low data rate optimization is mandated when the symbol time is at least
+/// 16.38 ms (SX126x/SX127x/LR11xx datasheets). Decided in one place, by the
+/// same rule as the airtime calculation, so that both ends of a link agree.
+pub(crate) fn low_data_rate_optimize(spreading_factor: SpreadingFactor, bandwidth: Bandwidth) -> u8 {
+    BaseBandModulationParams::new(spreading_factor, bandwidth, CodingRate::_4_5).ldro as u8
+}
+
 /// Status for a received packet
 #[derive(Clone, Copy)]
 #[cfg_attr(feature = "defmt-03", derive(defmt::Format))]
